@@ -17,6 +17,7 @@ import (
 	"os/exec"
 	"runtime"
 	"runtime/debug"
+	"runtime/pprof"
 	"sort"
 	"strconv"
 	"strings"
@@ -46,11 +47,12 @@ var (
 	flagMaxDec   = flag.Int("maxdec", 0, "decision budget per path")
 	flagMaxPaths = flag.Int("maxpaths", 0, "stop after this many paths (0 = exhaustive); stopping early makes the run inconclusive")
 	flagTimeout  = flag.Duration("timeout", 0, "wall-clock limit (0 = none); hitting it makes the run inconclusive")
-	flagSolver   = flag.String("solver", "z3 -in", "solver command")
+	flagSolver   = flag.String("solver", "z3-new -in", "solver command")
 	flagSamples  = flag.Int("samples", 24, "paths whose inputs/observations are kept as samples")
 	flagBatch    = flag.Int("batch", 24, "paths a worker explores before returning open items")
 	flagDir      = flag.String("dir", "", "module directory to load from (default: cwd)")
 	flagQLog     = flag.String("qlog", "", "write worker 0's solver queries to this file")
+	flagNoFast   = flag.Bool("nofast", false, "send every feasibility question to the solver (no finite-domain shortcut)")
 	flagTrace    = flag.Bool("trace", false, "interpreter tracing (single worker)")
 	flagParams   multiFlag
 )
@@ -72,6 +74,7 @@ type pathLite struct {
 	Decisions  int                `json:"d"`
 	Steps      int                `json:"s"`
 	Unknown    int                `json:"u,omitempty"`
+	Fast       int                `json:"f,omitempty"`
 }
 
 type workerResp struct {
@@ -97,7 +100,16 @@ func loadProgram() (*ssa.Program, *ssa.Package, map[string]string, types.Sizes, 
 		BuildFlags: []string{"-tags=math_big_pure_go,purego,verif"},
 		Env:        os.Environ(),
 	}
+	t0 := time.Now()
+	defer func() {
+		if os.Getenv("GOSYM_TIMING") != "" {
+			fmt.Fprintf(os.Stderr, "load total %v\n", time.Since(t0))
+		}
+	}()
 	pkgs, err := packages.Load(cfg, *flagPkg)
+	if os.Getenv("GOSYM_TIMING") != "" {
+		fmt.Fprintf(os.Stderr, "packages.Load %v\n", time.Since(t0))
+	}
 	if err != nil {
 		return nil, nil, nil, nil, err
 	}
@@ -159,6 +171,11 @@ func knownSet() map[string]bool {
 }
 
 func worker() {
+	if f := os.Getenv("GOSYM_CPUPROFILE"); f != "" {
+		fh, _ := os.Create(f)
+		pprof.StartCPUProfile(fh)
+		defer pprof.StopCPUProfile()
+	}
 	out := bufio.NewWriterSize(os.Stdout, 1<<20)
 	enc := json.NewEncoder(out)
 	send := func(r workerResp) {
@@ -196,8 +213,16 @@ func worker() {
 		defer f.Close()
 	}
 	m.Solver = solver
-	cfg := &interp.Config{MaxSteps: *flagMaxSteps, MaxDecisions: *flagMaxDec, Known: knownSet(), Params: parseParams()}
-	debug.SetGCPercent(200)
+	cfg := &interp.Config{MaxSteps: *flagMaxSteps, MaxDecisions: *flagMaxDec, Known: knownSet(), Params: parseParams(), NoFast: *flagNoFast}
+	if os.Getenv("GOGC") == "" {
+		// Fresh memory is expensive in this sandbox: keep the heap small and
+		// stable instead of letting it balloon between collections.
+		runtime.GC()
+		var ms runtime.MemStats
+		runtime.ReadMemStats(&ms)
+		debug.SetGCPercent(-1)
+		debug.SetMemoryLimit(int64(ms.HeapAlloc)*3/2 + 300<<20)
+	}
 	send(workerResp{Ready: true})
 	funcs := map[string]bool{}
 	in := bufio.NewReaderSize(os.Stdin, 1<<20)
@@ -217,7 +242,7 @@ func worker() {
 				funcs[f] = true
 			}
 			pl := pathLite{Outcome: res.Outcome, Msg: res.Msg, Violations: res.Violations, Reached: res.Reached,
-				Covers: res.Covers, Decisions: res.Decisions, Steps: res.Steps, Unknown: res.Unknown}
+				Covers: res.Covers, Decisions: res.Decisions, Steps: res.Steps, Unknown: res.Unknown, Fast: res.Fast}
 			if n < 2 {
 				pl.Obs, pl.Vector, pl.Inputs = res.Obs, res.Vector, res.Inputs
 			}
@@ -266,6 +291,7 @@ type result struct {
 	Sat          int
 	Unsat        int
 	Unknown      int
+	FastDecided  int
 	SolverS      float64
 	SolverErrors []string
 	WallS        float64
@@ -324,6 +350,7 @@ func master() int {
 		}
 		cmd := exec.Command(exe, args...)
 		cmd.Stderr = os.Stderr
+		cmd.Env = append(os.Environ(), "GOMAXPROCS=2")
 		stdin, _ := cmd.StdinPipe()
 		stdout, _ := cmd.StdoutPipe()
 		if err := cmd.Start(); err != nil {
@@ -404,6 +431,7 @@ loop:
 					res.Decisions += p.Decisions
 					res.Steps += p.Steps
 					res.Unknown += p.Unknown
+					res.FastDecided += p.Fast
 					if p.Decisions > res.MaxDecisions {
 						res.MaxDecisions = p.Decisions
 					}
@@ -475,8 +503,15 @@ loop:
 		}
 	}
 	for _, p := range procs {
-		p.cmd.Process.Kill()
-		p.cmd.Wait()
+		p.w.Flush()
+		done := make(chan struct{})
+		go func(p *wproc) { p.cmd.Wait(); close(done) }(p)
+		select {
+		case <-done:
+		case <-time.After(3 * time.Second):
+			p.cmd.Process.Kill()
+			<-done
+		}
 	}
 	for f := range funcs {
 		res.Funcs = append(res.Funcs, f)
